@@ -220,6 +220,7 @@ func runMain(args []string) {
 	rep.WallS = time.Since(t0).Seconds()
 	if *out != "" {
 		writeJSON(*out, rep)
+		writeKernelSample(strings.TrimSuffix(*out, ".json")+".kr.txt", set.list, c)
 	}
 	fmt.Printf("harness %s %s: inputs=%d lines_compared=%d disagreements=%d oracle_evals=%d oracle_failures=%d wall=%.1fs\n",
 		*prop, *tier, rep.Inputs, rep.LinesCompared, rep.NDisagree, rep.OracleEvals, rep.NOracleFails, rep.WallS)
@@ -259,3 +260,30 @@ func replayMain(args []string) {
 }
 
 func sortStrings(xs []string) []string { sort.Strings(xs); return xs }
+
+// writeKernelSample writes up to 240 cases (kept corpus first, then a spread of the run's
+// inputs) with the implementation's IsSQLi / IsXSS answers, for re-evaluation by vm_compute.
+func writeKernelSample(path string, inputs []string, c *corpus) {
+	var pick []string
+	seen := map[string]bool{}
+	add := func(x string) {
+		if len(x) <= 200 && !seen[x] {
+			seen[x] = true
+			pick = append(pick, x)
+		}
+	}
+	for _, x := range c.kept {
+		if len(pick) < 80 {
+			add(x)
+		}
+	}
+	for i := 0; i < 160 && len(inputs) > 0; i++ {
+		add(inputs[(i*len(inputs))/160])
+	}
+	var b strings.Builder
+	for _, x := range pick {
+		b.WriteString(strings.Replace(lineV(x), "SV ", "SV "+hx(x)+" ", 1) + "\n")
+		b.WriteString(strings.Replace(lineHX(x), "HX ", "HX "+hx(x)+" ", 1) + "\n")
+	}
+	os.WriteFile(path, []byte(b.String()), 0o644)
+}
